@@ -85,8 +85,10 @@ func StressHistory(rng *rand.Rand, all []evt.Driver, record bool) (w *World, pla
 				plans[g] = append(plans[g], PlanOp{K: "clear", T: tt})
 			case x < 52:
 				plans[g] = append(plans[g], PlanOp{K: "clearall"})
-			case x < 90:
+			case x < 84:
 				plans[g] = append(plans[g], PlanOp{K: "pub", T: tt, Ctx: rng.IntN(2) == 0})
+			case x < 90:
+				plans[g] = append(plans[g], PlanOp{K: "pub-cancelled", T: tt})
 			default:
 				plans[g] = append(plans[g], PlanOp{K: []string{"count", "has"}[rng.IntN(2)], T: tt})
 			}
@@ -117,6 +119,8 @@ func StressHistory(rng *rand.Rand, all []evt.Driver, record bool) (w *World, pla
 					} else {
 						w.Publish(g, o.T, nil)
 					}
+				case "pub-cancelled":
+					w.PublishCancelled(g, o.T)
 				case "count":
 					w.Count(g, o.T)
 				case "has":
